@@ -451,8 +451,10 @@ def alpha_norm(t, depth=0):
     """α-normalise bound index variables to de Bruijn *levels* (binder at nesting depth d is
     named L<d>), re-normalising polynomials afterwards.  Independent of fresh-name numbering
     and of the order in which sibling sub-terms were sorted."""
-    if not isinstance(t, tuple) or not t or not isinstance(t[0], str):
+    if not isinstance(t, tuple) or not t:
         return t
+    if not isinstance(t[0], str):
+        return tuple(alpha_norm(x, depth) if isinstance(x, tuple) else x for x in t)
     k = t[0]
     if k in ("const", "sym", "ix"):
         return t
